@@ -615,6 +615,10 @@ FLAGS = [
     'const_elseif',     # an ELSE IF branch may have a compile-time constant condition
     'site_if1_call',    # one-line IF whose statement is a CALL to an internal subroutine
     'lb_inquiry',       # LBOUND / UBOUND inquiry on an array dummy whose lower bound is not 1
+    'act_lower_zero',   # section actual whose lower bound is the literal 0
+    'assumed_caller_lb',  # assumed-shape dummy a(:) associated with (a section of) a caller array whose lower bound is not 1
+    'act_muldiv',       # actual argument expression with * or / as top-level operator (otherwise written in parentheses)
+    'member_uses_param',  # an internal procedure references a PARAMETER of the host (imported or local)
 ]
 # probability (percent) of a flag being on; default FLAG_PCT
 FLAG_PCT = 45
@@ -781,7 +785,7 @@ def make_sub(b, g, name, idx, earlier_subs, funs, host=None, internal=False):
         if F('clash_local'):
             shadowed = {n for n in host.vars if n.startswith('l')}
         cand = [n for n, v in host.vars.items() if n not in shadowed and n not in used_names and not v.get('fuel')
-                and n != 'n']
+                and n != 'n' and not (v.get('param') and not F('member_uses_param'))]
         if F('int_host_read'):
             for n in cand:
                 v = host.vars[n]
@@ -805,6 +809,8 @@ def make_sub(b, g, name, idx, earlier_subs, funs, host=None, internal=False):
                 env.vars[n] = dict(host.vars[n])
                 hwrite.add(n)
                 b.use('int_host_write')
+    if host is not None and any(host.vars[n].get('param') for n in hread):
+        b.use('member_uses_param')
     # locals
     prefix = 'l' if F('clash_local') else f't{idx}'
     if F('clash_local'):
@@ -972,11 +978,14 @@ def make_fun(b, g, name, idx, earlier_funs, elemental=False, host=None, internal
     if internal and host is not None and F('int_host_read'):
         for n, v in host.vars.items():
             if not v['dims'] and v['type'] in ('int', 'real') and n not in args and not v.get('fuel') and n != 'n' \
+                    and not (v.get('param') and not F('member_uses_param')) \
                     and not (F('clash_local') and n.startswith('l')) and g.chance(40) and len(hread) < 2:
                 env.vars[n] = dict(v, ro=True)
                 hread.add(n)
         if hread:
             b.use('int_host_read')
+        if any(host.vars[n].get('param') for n in hread):
+            b.use('member_uses_param')
     res = f'rs{idx}' if F('fn_result_clause') else None
     if res:
         b.use('fn_result_clause')
@@ -1037,6 +1046,8 @@ def _array_actual(b, g, env, d, used_w, banned_w, banned_r):
     E, t, form = d['E'], d['type'], d.get('form')
     writable = d['intent'] != 'in'
     cands = []
+    lb1_only = form == 'assumed' and 'assumed_caller_lb' in b.fl and not F('assumed_caller_lb')
+    nozero = 'act_lower_zero' in b.fl and not F('act_lower_zero')
     for a in env.arrays(t, writable=writable):
         v = env.vars[a]
         if a in used_w or v.get('path'):
@@ -1046,6 +1057,8 @@ def _array_actual(b, g, env, d, used_w, banned_w, banned_r):
         if not writable and a in banned_r:
             continue
         if any(not isinstance(x[1], int) for x in v['dims']):
+            continue
+        if lb1_only and any(x[0] != 1 for x in v['dims']):
             continue
         cands.append(a)
     opts = []
@@ -1084,17 +1097,33 @@ def _array_actual(b, g, env, d, used_w, banned_w, banned_r):
         e = var(a) if g.chance(70) else ['d', [[a, [['rng', None, None, None]]]]]
     elif kind in ('section', 'section!'):
         lo = lb + g.i(0, (ub - lb + 1) - E)
+        if lo == 0 and nozero:
+            lo = 1 if 1 + E - 1 <= ub else None
+        if lo is None:
+            return None, None
         e = ['d', [[a, [['rng', lit(lo), lit(lo + E - 1), None]]]]]
         if kind == 'section':
             b.use('act_section')
+        if lo == 0:
+            b.use('act_lower_zero')
     elif kind == 'stride':
         lo = lb + g.i(0, (ub - lb + 1) - (2 * E - 1))
+        if lo == 0 and nozero:
+            lo = 1 if 1 + 2 * (E - 1) <= ub else None
+        if lo is None:
+            return None, None
         e = ['d', [[a, [['rng', lit(lo), lit(lo + 2 * (E - 1)), lit(2)]]]]]
         b.use('act_stride')
+        if lo == 0:
+            b.use('act_lower_zero')
     elif kind == 'open':
         lo = ub - E + 1
+        if lo == 0 and nozero:
+            return None, None
         e = ['d', [[a, [['rng', lit(lo), None, None]]]]]
         b.use('act_open')
+        if lo == 0:
+            b.use('act_lower_zero')
     elif kind == 'larger':
         e = var(a)
         b.use('act_larger')
@@ -1106,7 +1135,19 @@ def _array_actual(b, g, env, d, used_w, banned_w, banned_r):
         j = g.i(dims[0][0], dims[0][1])
         e = ['d', [[a, [lit(j), ['rng', None, None, None]]]]]
         b.use('act_2d')
+    if form == 'assumed' and any(x[0] != 1 for x in dims):
+        b.use('assumed_caller_lb')
     return e, a
+
+
+def safe_actual(b, e):
+    """an actual argument expression; without act_muldiv a top-level product / quotient is written in parentheses"""
+    if isinstance(e, list) and e and e[0] == 'b' and e[1] in ('*', '/') and 'act_muldiv' in b.fl:
+        if b.F('act_muldiv'):
+            b.use('act_muldiv')
+            return e
+        return ['p', e]
+    return e
 
 
 def env_without(env, names):
@@ -1162,11 +1203,11 @@ def make_call(b, g, env, sig, marked, allow_absent=True, banned_w=(), banned_r=(
             if allow_absent and F('opt_absent') and g.chance(60):
                 b.use('opt_absent')
                 continue
-            actuals[nm] = gen.expr_of(g, env, t, 1)
+            actuals[nm] = safe_actual(b, gen.expr_of(g, env, t, 1))
             continue
         if d['intent'] == 'in':
             if F('act_expr'):
-                actuals[nm] = gen.expr_of(g, env, t, 2)
+                actuals[nm] = safe_actual(b, gen.expr_of(g, env, t, 2))
             elif F('act_elem') and env.arrays(t) and g.chance(50):
                 actuals[nm] = gen.element(g, env, g.pick(env.arrays(t)), 0)
             else:
@@ -1204,7 +1245,7 @@ def make_call(b, g, env, sig, marked, allow_absent=True, banned_w=(), banned_r=(
     for d in sig['dummies']:
         nm = d['name']
         if d['role'] == 'in' and nm in actuals:
-            if actuals[nm][0] not in ('d', 'i', 'r', 'l'):
+            if actuals[nm][0] not in ('d', 'i', 'r', 'l') and not (actuals[nm][0] == 'u' and actuals[nm][2][0] in ('i', 'r')):
                 b.use('act_expr')
             elif actuals[nm][0] == 'd' and actuals[nm][1][0][1]:
                 b.use('act_elem')
@@ -1241,7 +1282,7 @@ def make_fcall(b, g, env, fsig, depth=1, nest_pool=()):
             args.append(make_fcall(b, g, env, g.pick(inner), depth - 1, ()))
             b.use('fn_nested')
         else:
-            args.append(gen.expr_of(g, env, t, 1))
+            args.append(safe_actual(b, gen.expr_of(g, env, t, 1)))
     if b.F('fn_kw') and fsig.get('argnames') and len(args) > 1 and not fsig.get('stmt') and g.chance(50):
         k = g.i(0, len(args) - 1)
         kws = {fsig['argnames'][j]: args[j] for j in range(k, len(args))}
@@ -1319,7 +1360,7 @@ def fn_site(b, g, env, pool, prefix, subs_in=()):
         w = fuel[0]
         b.use('fn_in_while')
         # the function argument depends on the fuel counter, so the condition changes between iterations
-        wcall = ['f', f['name'], [conv(var(w), 'int', t) if j == 0 else gen.expr_of(g, env, t, 0)
+        wcall = ['f', f['name'], [conv(var(w), 'int', t) if j == 0 else safe_actual(b, gen.expr_of(g, env, t, 0))
                                   for j, t in enumerate(f['args'])], {}]
         cond = ['b', '.and.', ['b', '>', var(w), lit(0)], ['b', g.pick(['>', '<', '/=']), wcall, conv(var(w), 'int', rt)]]
         body = [['assign', var(lhs), ['b', '+', var(lhs), conv(var(w), 'int', rt)]],
@@ -1385,7 +1426,7 @@ def fn_site(b, g, env, pool, prefix, subs_in=()):
                 args.append(sec)
                 anyarr = True
             else:
-                args.append(gen.expr_of(g, env, t, 0))
+                args.append(safe_actual(b, gen.expr_of(g, env, t, 0)))
         if not anyarr:
             return [['assign', var(lhs), call]], 'plain'
         b.use('elem_array')
@@ -1449,7 +1490,7 @@ def build(spec):
             nm, t = f'kp{k}', 'int'
         params.append((nm, t, v))
         pdecls.append(decl(nm, t, param=v))
-        penv[nm] = {'type': t, 'dims': None, 'ro': True}
+        penv[nm] = {'type': t, 'dims': None, 'ro': True, 'param': True}
     cmod = module('cmod', decls=pdecls)
 
     # ---- callee module
@@ -1522,7 +1563,7 @@ def build(spec):
         if F('param_neg') and gk.chance(40):
             v = lit(-gk.i(1, 3))
         decls.insert(len(args), decl('lp0', 'int', param=v))
-        env.vars['lp0'] = {'type': 'int', 'dims': None, 'ro': True}
+        env.vars['lp0'] = {'type': 'int', 'dims': None, 'ro': True, 'param': True}
         b.use('param_local')
     env.vars.update({k: dict(v) for k, v in penv.items()})
 
